@@ -605,3 +605,57 @@ def elapsed_form(tr, cmp):
             a = [tr.expand(tr.operand(c.g.b, o, c.loc)) for o in c.args]
             return (a[0], a[1])
     return None
+
+
+def check_clone_variants(facts, tr, rep, rule, crate_names=None, only_suffix=None):
+    """hand-written `Clone` impls of workspace enums map every variant to the same variant (a clone that changes the
+    variant changes what the value means for whoever receives the copy — e.g. every coalesced waiter gets a clone of
+    the leader's error).  Returns the number of clone arms examined."""
+    n = 0
+    for cn, c in facts.crates.items():
+        if crate_names is not None and cn not in crate_names:
+            continue
+        for im in c.impls:
+            if im.get("trait") != CLONE.rsplit("::", 1)[0]:
+                continue
+            st = c.types[im["self_ty"]]
+            adt = facts.adt(st.get("def") or "")
+            if adt is None or adt["kind"] != "enum":
+                continue
+            if only_suffix and not st["def"].endswith(only_suffix):
+                continue
+            for it in im["items"]:
+                b = facts.bodies.get(it["def"])
+                if b is None or it["name"] != "clone":
+                    continue
+                if b.span.get("exp") or (b.j.get("span") or {}).get("exp"):
+                    continue          # #[derive(Clone)]
+                g = graph(b)
+                for (i, j, node) in ret_assigns(tr, b):
+                    for lf in leaves(node):
+                        lf = peel(lf)
+                        if lf[0] != "agg":
+                            continue
+                        _b2, rv = tr.agg_of(lf)
+                        if rv.get("def") != st["def"]:
+                            continue
+                        arms = [e["label"] for e in dominating_edges(tr, b, lf[3]) if e["kind"] == "enum" and
+                                peel(e["node"])[0] in ("param", "deref") and e["label"] in [v["name"] for v in adt["variants"]]]
+                        if not arms:
+                            # built after the arms merged (`A(e) | B(e) => A(..)`): one variant for several sources
+                            if len(adt["variants"]) > 1:
+                                n += 1
+                                rep.saw(b)
+                                rep.ob(rule, skey(b, "clone-merged.%s" % rv.get("variant")), False, g.where(lf[3], lf[4]),
+                                       "clone of %s produces the variant %s whatever the variant of the original is: every holder of a copy "
+                                       "(e.g. a coalesced waiter) can see a different outcome than the original"
+                                       % (st["def"].split("::")[-1], rv.get("variant")))
+                            continue
+                        n += 1
+                        rep.saw(b)
+                        ok = arms[-1] == rv.get("variant")
+                        rep.ob(rule, skey(b, "clone-arm.%s" % arms[-1]), ok, g.where(lf[3], lf[4]),
+                               "clone of %s::%s is %s::%s" % (st["def"].split("::")[-1], arms[-1], st["def"].split("::")[-1], rv.get("variant")) if ok else
+                               "clone of %s::%s produces %s::%s: every holder of a copy (e.g. a coalesced waiter) sees a different outcome than "
+                               "the original" % (st["def"].split("::")[-1], arms[-1], st["def"].split("::")[-1], rv.get("variant")))
+    return n
